@@ -136,12 +136,55 @@ def _wrap(types, n, v):
 
 
 RESOLVE = {"fn": None}
+GLOBALS = {"fn": None}     # name -> global variable record of another unit
 
 
 class Ptr:
-    """address of a record held in a variable of some frame (`&res` handed to a helper that fills it in)"""
+    """address of a variable of some frame (`&res` handed to a helper that fills the record in, `&sp` handed to a reader that
+    advances the caller's cursor)"""
     def __init__(self, env, d, t):
         self.env, self.d, self.t = env, d, t
+
+
+class CPtr:
+    """pointer into a byte / integer array: (the array as a mutable list, offset).  Arrays are text buffers, string literals and
+    constant tables; reading or writing outside the array aborts the fold (that is a finding of its own kind)."""
+    __slots__ = ("buf", "off")
+
+    def __init__(self, buf, off=0):
+        self.buf, self.off = buf, off
+
+    def get(self, i=0):
+        j = self.off + i
+        if not (0 <= j < len(self.buf)):
+            raise Abort("read at offset %d of an array of %d" % (j, len(self.buf)))
+        return self.buf[j]
+
+    def put(self, v, i=0):
+        j = self.off + i
+        if not (0 <= j < len(self.buf)):
+            raise Abort("write at offset %d of an array of %d" % (j, len(self.buf)))
+        self.buf[j] = v
+
+    def __repr__(self):
+        return "<ptr +%d/%d>" % (self.off, len(self.buf))
+
+
+def cstr(text):
+    """a NUL terminated byte array for a Python string"""
+    return CPtr(list(text.encode("latin-1", "replace")) + [0], 0)
+
+
+def cstr_value(p, maxlen=4096):
+    out = []
+    i = 0
+    while i < maxlen:
+        c = p.get(i)
+        if c == 0:
+            break
+        out.append(c)
+        i += 1
+    return bytes(out).decode("latin-1")
 
 
 class Folder:
@@ -156,7 +199,7 @@ class Folder:
         self._tabs = {}
 
     def truth(self, v):
-        if isinstance(v, Ptr):
+        if isinstance(v, (Ptr, CPtr)):
             return True
         if not isinstance(v, Aff):
             return bool(v)
@@ -176,6 +219,19 @@ class Folder:
             n = strip(n["c"][0])
         if n is not None and n.get("k") == "DeclRefExpr" and n.get("dk") in ("var", "parm"):
             return n["d"]
+        if n is not None and n.get("k") == "UnaryOperator" and n.get("op") == "*":
+            pv = self.ev(n["c"][0])
+            if isinstance(pv, (CPtr, Ptr)):
+                return ("deref", pv, 0)
+            raise NotConst("dereference of a non-pointer")
+        if n is not None and n.get("k") == "ArraySubscriptExpr":
+            base = self.ev(n["c"][0])
+            idx = self.ev(n["c"][1])
+            if isinstance(base, list):
+                base = CPtr(base, 0)
+            if isinstance(base, CPtr) and isinstance(idx, int):
+                return ("deref", base, idx)
+            raise NotConst("subscript lvalue")
         if n is not None and n.get("k") == "MemberExpr":
             names = []
             x = n
@@ -196,6 +252,11 @@ class Folder:
     def load(self, key):
         if not isinstance(key, tuple):
             return self.env[key]
+        if key[0] == "deref":
+            pv, i = key[1], key[2]
+            if isinstance(pv, CPtr):
+                return pv.get(i)
+            return pv.env[pv.d]
         d, path, t = key
         rec = d.env.get(d.d) if isinstance(d, Ptr) else self.env.get(d)
         if not isinstance(rec, dict):
@@ -224,6 +285,15 @@ class Folder:
     def store(self, key, v):
         if not isinstance(key, tuple):
             self.env[key] = dict(v) if isinstance(v, dict) else v
+            return
+        if key[0] == "deref":
+            pv, i = key[1], key[2]
+            if isinstance(pv, CPtr):
+                if not isinstance(v, int):
+                    raise NotConst("non-integer stored into an array")
+                pv.put(v & 0xff if -256 < v < 256 and len(pv.buf) and isinstance(pv.buf[0], int) and getattr(pv, "_bytes", True) else v, i)
+            else:
+                pv.env[pv.d] = v
             return
         d, path, t = key
         rec = d.env.setdefault(d.d, {}) if isinstance(d, Ptr) else self.env.setdefault(d, {})
@@ -269,17 +339,38 @@ class Folder:
         env = self.env
         if k == "DeclRefExpr":
             if n.get("d") in env:
-                return env[n["d"]]
+                v0 = env[n["d"]]
+                return v0
+            g = self.global_table(n)
+            if g is not None:
+                return g
+            if n.get("dk") in ("var", "gvar", None) and n.get("n"):
+                from core import init_value
+                gv = self.fn.tu.global_var(n.get("n"), func=self.fn.name) or self.fn.tu.global_var(n.get("n"))
+                if (gv is None or (gv.get("init") is None and "val" not in gv)) and GLOBALS.get("fn") is not None:
+                    gv = GLOBALS["fn"](n.get("n")) or gv
+                if gv is not None:
+                    v0 = gv.get("val") if "val" in gv else init_value(gv.get("init"))
+                    if isinstance(v0, int):
+                        return v0
             if "v" in n:
                 return n["v"]
             raise NotConst("free variable %s" % n.get("n"))
         if k in ("IntegerLiteral", "CharacterLiteral", "UnaryExprOrTypeTraitExpr") and "v" in n:
             return n["v"]
+        if k == "StringLiteral" and isinstance(n.get("s"), str):
+            return CPtr(list(n["s"].encode("latin-1", "replace")) + [0], 0)
         if k in CASTS or k in ("ParenExpr", "CompoundLiteralExpr", "ConstantExpr"):
             if n.get("ck") == "ToVoid":
                 # (void)sizeof(...) of an assert: nothing to evaluate
                 return 0
             v = self.ev(n["c"][0])
+            if isinstance(v, list) and n.get("ck") == "ArrayToPointerDecay":
+                return CPtr(v, 0)
+            if isinstance(v, (CPtr, Ptr)):
+                if n.get("ck") == "PointerToBoolean":
+                    return 1
+                return v
             if k in CASTS and n.get("ck") in ("IntegralCast", "NoOp", "LValueToRValue", None, "IntegralToBoolean"):
                 if n.get("ck") == "IntegralToBoolean":
                     return int(bool(v))
@@ -297,7 +388,10 @@ class Folder:
         if k == "ImplicitValueInitExpr":
             return 0
         if k == "ArraySubscriptExpr":
-            return self.table_read(n)
+            try:
+                return self.table_read(n)
+            except NotConst:
+                return self.load(self.lv(n))
         if k == "CallExpr":
             cal = n.get("callee")
             if cal == "__builtin_expect":
@@ -324,6 +418,10 @@ class Folder:
             if op in ("++", "--"):
                 d = self.lv(n["c"][0])
                 old = self.load(d)
+                if isinstance(old, CPtr):
+                    new = CPtr(old.buf, old.off + (1 if op == "++" else -1))
+                    self.store(d, new)
+                    return old if n.get("postfix") else new
                 if isinstance(old, Aff):
                     new = Aff(old.c + (1 if op == "++" else -1), old.k, old.sg)
                     self.store(d, new)
@@ -336,9 +434,16 @@ class Folder:
             if op == "&":
                 x = strip(n["c"][0])
                 if x is not None and x.get("k") == "DeclRefExpr" and x.get("dk") in ("var", "parm"):
-                    self.env.setdefault(x["d"], {})
+                    if x["d"] not in self.env:
+                        ty = self.types[x["t"]] if x.get("t") is not None else {}
+                        self.env[x["d"]] = {} if ty.get("rec") is not None else 0
                     return Ptr(self.env, x["d"], x.get("t"))
+                if x is not None and x.get("k") == "ArraySubscriptExpr":
+                    key = self.lv(x)
+                    return CPtr(key[1].buf, key[1].off + key[2])
                 raise NotConst("address of %s" % expr_text_safe(x))
+            if op == "*":
+                return self.load(self.lv(n))
             v = self.ev(n["c"][0])
             if op == "!":
                 return int(not self.truth(v))
@@ -374,7 +479,7 @@ class Folder:
         if k == "CompoundAssignOperator":
             d = self.lv(n["c"][0])
             r = self.arith(n, n["op"][:-1], self.load(d), self.ev(n["c"][1]))
-            r = _wrap(self.types, n["c"][0], r) if n["c"][0].get("t") is not None and not isinstance(d, tuple) else r
+            r = _wrap(self.types, n["c"][0], r) if n["c"][0].get("t") is not None and not isinstance(d, tuple) and isinstance(r, int) else r
             self.store(d, r)
             return r
         if k == "ConditionalOperator":
@@ -455,6 +560,33 @@ class Folder:
         raise NotConst("operator %s on a quotient-dependent value" % op)
 
     def arith(self, n, op, a, b):
+        if isinstance(a, list):
+            a = CPtr(a, 0)
+        if isinstance(b, list):
+            b = CPtr(b, 0)
+        if isinstance(a, CPtr) or isinstance(b, CPtr):
+            if isinstance(a, CPtr) and isinstance(b, CPtr):
+                if a.buf is not b.buf:
+                    if op == "==":
+                        return 0
+                    if op == "!=":
+                        return 1
+                    raise NotConst("pointers into different arrays")
+                if op == "-":
+                    return a.off - b.off
+                if op in ("==", "!=", "<", ">", "<=", ">="):
+                    x, y = a.off, b.off
+                    return int({"==": x == y, "!=": x != y, "<": x < y, ">": x > y, "<=": x <= y, ">=": x >= y}[op])
+                raise NotConst("pointer %s pointer" % op)
+            p_, i_ = (a, b) if isinstance(a, CPtr) else (b, a)
+            if isinstance(i_, int):
+                if op == "+":
+                    return CPtr(p_.buf, p_.off + i_)
+                if op == "-" and p_ is a:
+                    return CPtr(p_.buf, p_.off - i_)
+                if op in ("==", "!=") and i_ == 0:
+                    return int(op == "!=")
+            raise NotConst("pointer arithmetic %s" % op)
         if isinstance(a, Ptr) or isinstance(b, Ptr):
             other = b if isinstance(a, Ptr) else a
             if op in ("==", "!=") and other == 0:
@@ -513,7 +645,10 @@ class Folder:
                             self.env[v["d"]] = _wrap(self.types, v, val) if v.get("t") is not None else val
                     else:
                         ty = self.types[v["t"]] if v.get("t") is not None else {}
-                        self.env.setdefault(v["d"], {} if ty.get("rec") is not None else 0)
+                        if ty.get("arr"):
+                            self.env.setdefault(v["d"], [0] * int(ty["arr"]))
+                        else:
+                            self.env.setdefault(v["d"], {} if ty.get("rec") is not None else 0)
         elif k == "IfStmt":
             if self.truth(self.ev(s["c"][0])):
                 self.st(s["c"][1])
@@ -628,6 +763,33 @@ class Folder:
             return self.load(tmp)
         finally:
             del self.env["__tmp__"]
+
+    def global_table(self, n):
+        """a constant array with static storage named by a DeclRefExpr (of this function or of the unit) as a list"""
+        if n.get("dk") not in ("var", "gvar", None):
+            return None
+        key = (self.fn.name, n.get("n"))
+        if key not in self._tabs:
+            from core import init_value
+            g = self.fn.tu.global_var(n.get("n"), func=self.fn.name) or self.fn.tu.global_var(n.get("n"))
+            if (g is None or (g.get("init") is None and "val" not in g)) and GLOBALS.get("fn") is not None:
+                g = GLOBALS["fn"](n.get("n")) or g
+            vals = None
+            if g is not None:
+                vals = g.get("val") if "val" in g else init_value(g.get("init"))
+                hops = 0
+                while isinstance(vals, dict) and ("ref" in vals or "decl" in vals) and hops < 4:
+                    # a pointer variable initialised with the address of a table: the table
+                    nm = vals.get("ref") or vals.get("decl")
+                    g2 = (GLOBALS["fn"](nm) if GLOBALS.get("fn") else None) or self.fn.tu.global_var(nm)
+                    vals = None if g2 is None else (g2.get("val") if "val" in g2 else init_value(g2.get("init")))
+                    hops += 1
+                if isinstance(vals, str):
+                    vals = list(vals.encode("latin-1", "replace")) + [0]
+                elif isinstance(vals, list):
+                    vals = [(CPtr(list(x.encode("latin-1", "replace")) + [0], 0) if isinstance(x, str) else x) for x in vals]
+            self._tabs[key] = vals
+        return self._tabs[key] if isinstance(self._tabs[key], list) else None
 
     def table_obj(self, b):
         """the (nested) list a subscript base stands for"""
